@@ -5,11 +5,16 @@
      cesium/writer.go Writer.Write/exec + writer_stream.go streamWriter.Flow/write
         WriteCall(w)      the caller hands a request to the streamWriter goroutine
                           (requests stream, capacity 1; Sync writers wait for the answer)
-        WriterPush(w)     streamWriter.write: the unauthorized keys are decided NOW
-                          (Gate.Authorize inside idx.write / virtual.write), the frame
-                          minus those series is sent into relay.inlet - a bare channel
-                          send that blocks while the inlet (capacity B) is full
-        WriterOpen/WriterClose(w)   gates opened / released (control state, see C05)
+        WriterDecide(w,k) streamWriter.write -> idx.write / virtual.write: Gate.Authorize is
+                          asked channel by channel; an unauthorized channel goes on the
+                          exclusion list
+        WriterPush(w)     ... then the frame minus those series is sent into relay.inlet - a
+                          bare channel send that blocks while the inlet (capacity B) is full.
+                          (Decision and push are separate steps: another writer may take a
+                          channel over, and even stream a newer frame, in between.)
+        WriterOpen(w), WriterOpenKey(w,k) / WriterClose(w), WriterCloseKey(w,k)
+                          DB.OpenWriter / Writer.Close open / release the control gates one
+                          channel at a time (control state itself: see C05)
      cesium/relay.go + x/go/confluence/delta.go DynamicDeltaMultiplier.Flow (one goroutine)
         DeltaTake         `case res := <-d.In.Outlet()`
         DeltaSendTo(s)    SendToEachWithTimeout: `case inlet.Inlet() <- v` - the outlet
@@ -74,7 +79,10 @@ CONSTANTS Writers, Streamers, Keys,
           CloseModes,     \* subset of {"graceful", "cancel"}
           LateOpen        \* writers opened during the run (the others are open at Init)
 
-VARIABLES wstate,   \* [Writers -> {"init","open","closed"}]
+VARIABLES wstate,   \* [Writers -> {"init","opening","open","closing","closed"}]
+          gates,    \* [Writers -> SUBSET Keys]: channels on which the writer holds an open gate
+          wdone,    \* [Writers -> SUBSET Keys]: channels of the head request already asked about
+          wyes,     \* [Writers -> SUBSET Keys]: ... and found authorized
           wnext,    \* [Writers -> 1..MaxSeq+1] next sequence number
           wq,       \* [Writers -> Seq(frame)] accepted, not yet pushed
           inlet,    \* Seq(frame): relay.inlet
@@ -99,7 +107,7 @@ VARIABLES wstate,   \* [Writers -> {"init","open","closed"}]
           owed,     \* [Streamers -> SUBSET (Writers \X Nat)]: pushed while connected & open
           emptied   \* [Streamers -> SUBSET (Writers \X Nat)]: filtered to nothing
 
-wvars == <<wstate, wnext, wq>>
+wvars == <<wstate, gates, wdone, wyes, wnext, wq>>
 dvars == <<inlet, dcur, didx, conns, drun>>
 svars == <<sst, keys, held, out, req, closing, nresub>>
 gvars == <<written, got, subHist, owed, emptied>>
@@ -117,8 +125,7 @@ Max(a, b) == IF a > b THEN a ELSE b
 
 \* C05: w is not the holder of channel k while another open writer has more authority
 Unauthorized(w, k) ==
-  \E o \in Writers \ {w} : wstate[o] = "open" /\ k \in WKeys[o] /\ Auth[o][k] > Auth[w][k]
-Excluded(w) == {k \in WKeys[w] : Unauthorized(w, k)}
+  \E o \in Writers \ {w} : k \in gates[o] /\ Auth[o][k] > Auth[w][k]
 
 \* the streamer goroutine sits in its select and can take a frame / a request
 AtSelect(s) == sst[s] = "Running" /\ held[s] = NoFrame
@@ -127,6 +134,8 @@ Draining(s) == SeparateDrain /\ sst[s] = "Disconnecting"
 
 Init ==
   /\ wstate = [w \in Writers |-> IF w \in LateOpen THEN "init" ELSE "open"] /\ wnext = [w \in Writers |-> 1]
+  /\ gates = [w \in Writers |-> IF w \in LateOpen THEN {} ELSE WKeys[w]]
+  /\ wdone = [w \in Writers |-> {}] /\ wyes = [w \in Writers |-> {}]
   /\ wq = [w \in Writers |-> <<>>]
   /\ inlet = <<>> /\ dcur = NoFrame /\ didx = 1 /\ conns = <<>> /\ drun = TRUE
   /\ sst = [s \in Streamers |-> "Init"] /\ keys = [s \in Streamers |-> {}]
@@ -142,21 +151,33 @@ Init ==
 \* writers
 WriterOpen(w) ==
   /\ wstate[w] = "init" /\ ~dbClosed
-  /\ wstate' = [wstate EXCEPT ![w] = "open"]
-  /\ UNCHANGED <<wnext, wq, dvars, svars, dbClosed, gvars>>
+  /\ wstate' = [wstate EXCEPT ![w] = "opening"]
+  /\ UNCHANGED <<gates, wdone, wyes, wnext, wq, dvars, svars, dbClosed, gvars>>
+
+WriterOpenKey(w, k) ==
+  /\ wstate[w] = "opening" /\ k \in WKeys[w] \ gates[w]
+  /\ gates' = [gates EXCEPT ![w] = @ \cup {k}]
+  /\ wstate' = [wstate EXCEPT ![w] = IF gates'[w] = WKeys[w] THEN "open" ELSE "opening"]
+  /\ UNCHANGED <<wdone, wyes, wnext, wq, dvars, svars, dbClosed, gvars>>
 
 WriteCall(w) ==
   /\ wstate[w] = "open" /\ wnext[w] <= MaxSeq /\ Len(wq[w]) < WQ
   /\ wq' = [wq EXCEPT ![w] = Append(@, Frame(w, wnext[w], WKeys[w]))]
   /\ wnext' = [wnext EXCEPT ![w] = @ + 1]
-  /\ UNCHANGED <<wstate, dvars, svars, dbClosed, gvars>>
+  /\ UNCHANGED <<wstate, gates, wdone, wyes, dvars, svars, dbClosed, gvars>>
 
-\* streamWriter.write: exclusion decided and frame sent in one critical step of the
-\* writer goroutine (blocks while the inlet is full)
+\* streamWriter.write, first half: one channel of the head request is checked against the gates
+WriterDecide(w, k) ==
+  /\ wq[w] # <<>> /\ k \in Head(wq[w]).ks \ wdone[w]
+  /\ wdone' = [wdone EXCEPT ![w] = @ \cup {k}]
+  /\ wyes' = [wyes EXCEPT ![w] = IF Unauthorized(w, k) THEN @ ELSE @ \cup {k}]
+  /\ UNCHANGED <<wstate, gates, wnext, wq, dvars, svars, dbClosed, gvars>>
+
+\* second half: the frame minus the excluded series is sent (blocks while the inlet is full)
 WriterPush(w) ==
-  /\ wq[w] # <<>> /\ Len(inlet) < B
+  /\ wq[w] # <<>> /\ wdone[w] = Head(wq[w]).ks /\ Len(inlet) < B
   /\ LET f  == Head(wq[w])
-         ks == f.ks \ Excluded(w)
+         ks == wyes[w]
      IN /\ inlet' = Append(inlet, Frame(w, f.q, ks))
         /\ written' = [written EXCEPT ![w] =
                Append(@, [ks |-> ks, e |-> [s \in Streamers |-> Len(subHist[s])]])]
@@ -164,13 +185,20 @@ WriterPush(w) ==
                IF s \in Ready /\ s \in RangeOf(conns) /\ closing[s] = "no" /\ sst[s] = "Running"
                THEN owed[s] \cup {<<w, f.q>>} ELSE owed[s]]
   /\ wq' = [wq EXCEPT ![w] = Tail(@)]
-  /\ UNCHANGED <<wstate, wnext, dcur, didx, conns, drun, svars, dbClosed, got, subHist, emptied>>
+  /\ wdone' = [wdone EXCEPT ![w] = {}] /\ wyes' = [wyes EXCEPT ![w] = {}]
+  /\ UNCHANGED <<wstate, gates, wnext, dcur, didx, conns, drun, svars, dbClosed, got, subHist, emptied>>
 
-\* Writer.Close: pending requests are served first, then the gates are released
+\* Writer.Close: pending requests are served first, then the gates are released one by one
 WriterClose(w) ==
   /\ wstate[w] = "open" /\ wq[w] = <<>>
-  /\ wstate' = [wstate EXCEPT ![w] = "closed"]
-  /\ UNCHANGED <<wnext, wq, dvars, svars, dbClosed, gvars>>
+  /\ wstate' = [wstate EXCEPT ![w] = "closing"]
+  /\ UNCHANGED <<gates, wdone, wyes, wnext, wq, dvars, svars, dbClosed, gvars>>
+
+WriterCloseKey(w, k) ==
+  /\ wstate[w] = "closing" /\ k \in gates[w]
+  /\ gates' = [gates EXCEPT ![w] = @ \ {k}]
+  /\ wstate' = [wstate EXCEPT ![w] = IF gates'[w] = {} THEN "closed" ELSE "closing"]
+  /\ UNCHANGED <<wdone, wyes, wnext, wq, dvars, svars, dbClosed, gvars>>
 
 ---------------------------------------------------------------------------
 \* the delta goroutine
@@ -282,7 +310,7 @@ ConsumerRecv(s) ==
 ---------------------------------------------------------------------------
 DBClose ==
   /\ ~dbClosed
-  /\ Window_CloseWithOpenWriters \/ \A w \in Writers : wstate[w] # "open"
+  /\ Window_CloseWithOpenWriters \/ \A w \in Writers : wstate[w] \in {"init", "closed"}
   /\ AllowOrphan \/ \A s \in Streamers : sst[s] \in {"Init", "Closed"}
   /\ dbClosed' = TRUE /\ drun' = FALSE
   /\ dcur' = NoFrame /\ didx' = 1 /\ conns' = <<>>
@@ -293,9 +321,12 @@ DBClose ==
 ---------------------------------------------------------------------------
 Terminated ==
   /\ dbClosed
-  /\ \A w \in Writers : wstate[w] # "open" \/ (wnext[w] > MaxSeq /\ wq[w] = <<>>)
+  /\ \A w \in Writers : wstate[w] \in {"init", "closed"} \/ (wstate[w] = "open" /\ wnext[w] > MaxSeq /\ wq[w] = <<>>)
   /\ \A s \in Streamers : sst[s] \in {"Init", "Closed", "Orphaned"} /\ out[s] = <<>> /\ held[s] = NoFrame
 
+WriterSys ==
+  \E w \in Writers : \/ WriterPush(w)
+                     \/ \E k \in Keys : WriterDecide(w, k) \/ WriterOpenKey(w, k) \/ WriterCloseKey(w, k)
 EnvNext ==
   \/ \E w \in Writers : WriterOpen(w) \/ WriteCall(w) \/ WriterClose(w)
   \/ \E s \in Streamers : \E K \in OpenSubs : StreamerOpen(s, K)
@@ -303,7 +334,7 @@ EnvNext ==
   \/ \E s \in Streamers : \E m \in CloseModes : StreamerClose(s, m)
   \/ DBClose
 SysNext ==
-  \/ \E w \in Writers : WriterPush(w)
+  \/ WriterSys
   \/ DeltaTake
   \/ \E s \in Streamers : \/ DeltaSendTo(s) \/ DeltaTimeout(s) \/ DeltaConnect(s)
                           \/ DeltaDisconnect(s) \/ StreamerFilterSend(s) \/ Resubscribe(s)
@@ -311,7 +342,8 @@ SysNext ==
 Next == EnvNext \/ SysNext \/ (Terminated /\ UNCHANGED vars)
 
 Fairness ==
-  /\ \A w \in Writers : WF_vars(WriterPush(w))
+  /\ \A w \in Writers : WF_vars(WriterPush(w)) /\ \A k \in Keys :
+        WF_vars(WriterDecide(w, k)) /\ WF_vars(WriterOpenKey(w, k)) /\ WF_vars(WriterCloseKey(w, k))
   /\ WF_vars(DeltaTake)
   /\ \A s \in Streamers :
        /\ WF_vars(DeltaSendTo(s)) /\ WF_vars(DeltaTimeout(s)) /\ WF_vars(DeltaConnect(s))
@@ -323,7 +355,8 @@ Spec == Init /\ [][Next]_vars /\ Fairness
 ---------------------------------------------------------------------------
 \* properties
 TypeOK ==
-  /\ \A w \in Writers : wstate[w] \in {"init", "open", "closed"} /\ Len(wq[w]) <= WQ
+  /\ \A w \in Writers : /\ wstate[w] \in {"init", "opening", "open", "closing", "closed"}
+                         /\ Len(wq[w]) <= WQ /\ wyes[w] \subseteq wdone[w] /\ gates[w] \subseteq WKeys[w]
   /\ Len(inlet) <= B
   /\ \A s \in Streamers : sst[s] \in SStates /\ Len(out[s]) <= OutCap
   /\ \A i \in DOMAIN conns : sst[conns[i]] \in {"Running", "Disconnecting"}
